@@ -115,7 +115,11 @@ func newOperator(expr parser.Expr, storage *engstore.SelectorPool, opts *query.O
 				if err != nil {
 					return nil, err
 				}
-				return function.NewFunctionOperator(e, function.SampleTimestamp, []model.VectorOperator{next}, stepsBatch, opts)
+				op, err := function.NewFunctionOperator(e, function.SampleTimestamp, []model.VectorOperator{next}, stepsBatch, opts)
+				if err != nil {
+					return nil, err
+				}
+				return exchange.NewDuplicateLabelCheck(op, false), nil
 			}
 		}
 
@@ -164,7 +168,9 @@ func newOperator(expr parser.Expr, storage *engstore.SelectorPool, opts *query.O
 					operators = append(operators, operator)
 				}
 
-				return exchange.NewCoalesce(model.NewVectorPool(stepsBatch), operators...), nil
+				// Removing the metric name can make series coincide; the result of a
+				// function over a range vector must not contain the same label set twice.
+				return exchange.NewDuplicateLabelCheck(exchange.NewCoalesce(model.NewVectorPool(stepsBatch), operators...), true), nil
 			}
 		}
 
@@ -178,7 +184,11 @@ func newOperator(expr parser.Expr, storage *engstore.SelectorPool, opts *query.O
 			nextOperators[i] = next
 		}
 
-		return function.NewFunctionOperator(e, call, nextOperators, stepsBatch, opts)
+		next, err := function.NewFunctionOperator(e, call, nextOperators, stepsBatch, opts)
+		if err != nil {
+			return nil, err
+		}
+		return exchange.NewDuplicateLabelCheck(next, false), nil
 
 	case *parser.AggregateExpr:
 		hints.Func = e.Op.String()
@@ -244,7 +254,12 @@ func newOperator(expr parser.Expr, storage *engstore.SelectorPool, opts *query.O
 		case parser.ADD:
 			return next, nil
 		case parser.SUB:
-			return unary.NewUnaryNegation(next, stepsBatch)
+			op, err := unary.NewUnaryNegation(next, stepsBatch)
+			if err != nil {
+				return nil, err
+			}
+			// The Prometheus engine checks the whole result of a negation at once.
+			return exchange.NewDuplicateLabelCheck(op, true), nil
 		default:
 			// This shouldn't happen as Op was validated when parsing already
 			// https://github.com/prometheus/prometheus/blob/v2.38.0/promql/parser/parse.go#L573.
@@ -387,7 +402,14 @@ func newScalarBinaryOperator(e *parser.BinaryExpr, selectorPool *engstore.Select
 		scalarSide = binary.ScalarSideLeft
 	}
 
-	return binary.NewScalar(model.NewVectorPool(stepsBatch), lhs, rhs, e.Op, scalarSide, e.ReturnBool)
+	op, err := binary.NewScalar(model.NewVectorPool(stepsBatch), lhs, rhs, e.Op, scalarSide, e.ReturnBool)
+	if err != nil {
+		return nil, err
+	}
+	if scalarSide == binary.ScalarSideBoth {
+		return op, nil
+	}
+	return exchange.NewDuplicateLabelCheck(op, false), nil
 }
 
 // Copy from https://github.com/prometheus/prometheus/blob/v2.39.1/promql/engine.go#L791.
